@@ -209,6 +209,101 @@ func (r *vfC20Run) idlePrelude(rng *rand.Rand, ids []uint32) bool {
 	return true
 }
 
+// popOnce pops one frame and logs what came out (false: the scheduler panicked)
+func (r *vfC20Run) popOnce() bool {
+	var wr FrameWriteRequest
+	var ok bool
+	if !r.guard("pop", func() { wr, ok = r.ws.Pop() }) {
+		return false
+	}
+	r.pops++
+	ev := vfC20Ev{"op": "pop", "ok": ok, "id": 0, "s": 0, "k": "-", "len": 0, "whole": false}
+	if ok {
+		r.popsOK++
+		switch w := wr.write.(type) {
+		case vfCtlFrame:
+			ev["id"], ev["k"], ev["whole"] = w.id, "C", true
+		case StreamError:
+			ev["id"], ev["k"], ev["whole"] = int(w.Code)-1000, "C", true
+		case vfHdrFrame:
+			ev["id"], ev["k"], ev["s"], ev["whole"] = w.id, "H", wr.StreamID(), true
+		case *writeData:
+			id, known := r.dataID[w]
+			if !known && len(w.p) > 0 {
+				id = int(w.p[0])
+			}
+			r.sent[id] += len(w.p)
+			whole := r.sent[id] >= r.origLen[id]
+			if !whole {
+				r.splits++
+			}
+			ev["id"], ev["k"], ev["s"], ev["len"], ev["whole"] = id, "D", wr.StreamID(), len(w.p), whole
+		default:
+			ev["k"] = fmt.Sprintf("%T", wr.write)
+		}
+	}
+	r.emit(ev)
+	return true
+}
+
+// throttlePrelude (ThrottleOutOfOrderWrites only): a child of an open parent holds more DATA than the throttle's budget and more than
+// one frame may carry, with ample windows - what is popped for it is cut by the budget and by the frame size, whichever is smaller.
+func (r *vfC20Run) throttlePrelude(rng *rand.Rand, ids []uint32) bool {
+	if len(ids) < 2 {
+		return true
+	}
+	par, ch := ids[0], ids[1]
+	for _, id := range []uint32{par, ch} {
+		id := id
+		st := &stream{id: id, sc: r.sc}
+		st.flow.conn = &r.sc.flow
+		st.flow.n = 5000
+		if !r.guard("open", func() { r.ws.OpenStream(id, OpenStreamOptions{}) }) {
+			return false
+		}
+		r.streams[id] = st
+		r.emit(vfC20Ev{"op": "open", "s": id})
+		r.emit(vfC20Ev{"op": "setwin", "s": id, "v": 5000})
+	}
+	w := []uint8{15, 200}[rng.Intn(2)]
+	if !r.guard("adjust", func() { r.ws.AdjustStream(ch, PriorityParam{StreamDep: par, Weight: w}) }) {
+		return false
+	}
+	r.emit(vfC20Ev{"op": "adjust", "s": ch, "dep": par, "excl": false, "w": w})
+	mf := int32([]int{16, 700, 1200, 16384}[rng.Intn(4)])
+	if r.sc.maxFrameSize != mf {
+		r.sc.maxFrameSize = mf
+		r.emit(vfC20Ev{"op": "setmf", "v": mf})
+	}
+	targets := []uint32{ch}
+	if rng.Intn(3) == 0 {
+		targets = append(targets, par)
+	}
+	for _, s := range targets {
+		s := s
+		r.nframes++
+		id := r.nframes
+		n := []int{1500, 3000}[rng.Intn(2)]
+		pl := make([]byte, n)
+		for j := range pl {
+			pl[j] = byte(id)
+		}
+		wd := &writeData{streamID: s, p: pl, endStream: rng.Intn(2) == 0}
+		r.dataID[wd] = id
+		if !r.guard("push", func() { r.ws.Push(FrameWriteRequest{write: wd, stream: r.streams[s]}) }) {
+			return false
+		}
+		r.origLen[id] = n
+		r.emit(vfC20Ev{"op": "push", "k": "D", "s": s, "len": n})
+	}
+	for k := 1 + rng.Intn(3); k > 0; k-- {
+		if !r.popOnce() {
+			return false
+		}
+	}
+	return true
+}
+
 func (r *vfC20Run) history(rng *rand.Rand, ids []uint32, steps int) {
 	r.reset()
 	r.big = r.throttle && rng.Intn(2) == 0
@@ -218,7 +313,11 @@ func (r *vfC20Run) history(rng *rand.Rand, ids []uint32, steps int) {
 		r.sc.maxFrameSize = 16
 		r.emit(vfC20Ev{"op": "setmf", "v": 16})
 	}
-	if r.kind == "prio" {
+	if r.big && r.kind == "prio" && rng.Intn(2) == 0 {
+		if !r.throttlePrelude(rng, ids) {
+			return
+		}
+	} else if r.kind == "prio" {
 		switch rng.Intn(4) {
 		case 0, 1:
 			if !r.prelude(rng, ids) {
@@ -352,38 +451,9 @@ func (r *vfC20Run) history(rng *rand.Rand, ids []uint32, steps int) {
 				r.emit(vfC20Ev{"op": "setmf", "v": v})
 			}
 		default:
-			var wr FrameWriteRequest
-			var ok bool
-			if !r.guard("pop", func() { wr, ok = r.ws.Pop() }) {
+			if !r.popOnce() {
 				return
 			}
-			r.pops++
-			ev := vfC20Ev{"op": "pop", "ok": ok, "id": 0, "s": 0, "k": "-", "len": 0, "whole": false}
-			if ok {
-				r.popsOK++
-				switch w := wr.write.(type) {
-				case vfCtlFrame:
-					ev["id"], ev["k"], ev["whole"] = w.id, "C", true
-				case StreamError:
-					ev["id"], ev["k"], ev["whole"] = int(w.Code)-1000, "C", true
-				case vfHdrFrame:
-					ev["id"], ev["k"], ev["s"], ev["whole"] = w.id, "H", wr.StreamID(), true
-				case *writeData:
-					id, known := r.dataID[w]
-					if !known && len(w.p) > 0 {
-						id = int(w.p[0])
-					}
-					r.sent[id] += len(w.p)
-					whole := r.sent[id] >= r.origLen[id]
-					if !whole {
-						r.splits++
-					}
-					ev["id"], ev["k"], ev["s"], ev["len"], ev["whole"] = id, "D", wr.StreamID(), len(w.p), whole
-				default:
-					ev["k"] = fmt.Sprintf("%T", wr.write)
-				}
-			}
-			r.emit(ev)
 		}
 	}
 }
